@@ -476,6 +476,50 @@ def judge_merge_all(ctx, res, case):
     return {"db": db2, "create": rep, "merged": merged, "before": before}
 
 
+MA_ORDER = ("seqid", "featuretype", "strand", "start")
+
+
+def judge_merge_all_criteria(ctx, res, case):
+    """merge_all with merge criteria that OMIT mc.strand (or use another overlap rule) on files that mix strands: its runs
+    are those merge() builds from the features that were in the database when it was called, in merge_all's order; one
+    new stored feature per multi-member run, related to exactly its members.  Judged against merge() on a second,
+    untouched import of the same lines (merge() itself is judged against the greedy reference elsewhere)."""
+    import os
+    import warnings
+    import dbside
+    from gffutils import merge_criteria as mc
+    crit = {"no_strand": (mc.seqid, mc.overlap_end_inclusive, mc.feature_type),
+            "any_no_strand": (mc.seqid, mc.overlap_any_inclusive, mc.feature_type),
+            "no_type": (mc.seqid, mc.overlap_end_inclusive, mc.strand)}[case["criteria"]]
+    lines = case["input"]
+    path = dbside.write_lines(os.path.join(ctx.scratch, "mac.gff3"), lines)
+    dba, rep = dbside.py_create(path, dbside.Cfg())
+    dbb, _ = dbside.py_create(path, dbside.Cfg())
+    if dba is None or dbb is None:
+        return
+    res.evaluations += 1
+    try:
+        with warnings.catch_warnings():
+            warnings.simplefilter("ignore")
+            ref = list(dba.merge(list(dba.all_features(order_by=MA_ORDER)), merge_criteria=crit))
+            got = dbb.merge_all(merge_order=MA_ORDER, merge_criteria=crit)
+    except Exception as ex:
+        common.fail(res, case, "merge_all_raised", "merge_all / merge raised %r" % ex, error=pyside.err_name(ex))
+        return
+    want = sorted((m.seqid, m.start, m.end, m.strand, m.featuretype, tuple(sorted(c.id for c in m.children)))
+                  for m in ref if len(getattr(m, "children", []) or []) > 1)
+    have = sorted((m.seqid, m.start, m.end, m.strand, m.featuretype, tuple(sorted(c.id for c in m.children))) for m in got)
+    before = {str(x["id"]) for x in dbside.rows_of(dba)}
+    new = sorted(k for k in (str(x["id"]) for x in dbside.rows_of(dbb)) if k not in before)
+    rels_new = sorted((p, c) for p, c, l in dbside.rels_of(dbb) if p in new)
+    want_rels = sorted((m.id, c.id) for m in got for c in m.children)
+    if have != want or len(new) != len(want) or rels_new != want_rels:
+        common.fail(res, case, "merge_all_wrong",
+                    "merge_all(merge_criteria without mc.strand / with another rule) does not store one new feature per "
+                    "multi-member run of the features that were in the database when it was called", criteria=case["criteria"],
+                    runs_of_merge=want, runs_of_merge_all=have, new_rows=new, relations_of_new_rows=rels_new)
+
+
 def judge(ctx, case):
     res = common.Result("C16")
     if case.get("scenario") == "children_bp":
@@ -483,6 +527,8 @@ def judge(ctx, case):
         res.evaluations = 1
     elif case.get("scenario") == "merge_all":
         judge_merge_all(ctx, res, case)
+    elif case.get("scenario") == "merge_all_criteria":
+        judge_merge_all_criteria(ctx, res, case)
         res.evaluations = 1
     return res
 
@@ -774,6 +820,21 @@ def run(ctx):
             dtags.append(("merge_all result", repr((lines, exclude))))
             dcmds.append("dump"); dexp.append(("DUMP", dbside.dump(db2))); dtags.append(("tables after merge_all", repr((lines, exclude))))
         res.count("merge_all")
+        # merge_all with criteria that omit mc.strand / mc.feature_type, on this file and on a file of one class that mixes
+        # '+', '-' and '.' strands with overlapping, abutting and distant features (oracle only)
+        rm = ctx.rng("c16", "merge_all criteria", str(len(dcmds)))
+        mixed = []
+        pos = 1
+        for k in range(rm.randrange(4, 9)):
+            ln = rm.randrange(2, 12)
+            mixed.append(gen_db.gff_line("chr1", rm.choice(["exon", "exon", "exon", "CDS"]), pos, pos + ln, rm.choice("+-."),
+                                         [("ID", ["x%d" % k])]))
+            pos += rm.choice([1, 2, ln, ln + 1, ln + 2, ln + 20])
+        for crit_name in ("no_strand", "any_no_strand", "no_type"):
+            for lset, tag_ in ((lines, "generated"), (mixed, "mixed_strands")):
+                judge_merge_all_criteria(ctx, res, {"scenario": "merge_all_criteria", "input": lset, "criteria": crit_name,
+                                                    "no_shrink": True})
+                res.count("merge_all_criteria_%s_%s" % (crit_name, tag_))
         # several featuretypes_groups (oracle only; the model covers the default single group)
         lines2 = list(lines)
         for i, (a, b, sd) in enumerate(exons[:4]):
